@@ -29,7 +29,15 @@ def grid(ctx) -> None:
     ctx.require(len(rets) >= 1, "_get_target_times: no returning path")
     for p in rets[:1]:
         ret = strip_typed(p.retval)
-        dur = p.frames[0].env.get("duration")
+        dur = None
+        for t in walk(ret):
+            if t[0] == "call" and t[1] == "float" and len(t[2]) == 1 and strip_typed(t[2][0])[0] == "mcall" \
+                    and strip_typed(t[2][0])[2] == "get_duration":
+                dur = t
+        if dur is None:
+            for t in walk(ret):
+                if t[0] == "mcall" and t[2] == "get_duration":
+                    dur = t
         # 1. sorted of a set  ⇒ strictly increasing
         ok_sorted = ret[0] == "call" and ret[1] == "sorted" and len(ret[2]) == 1 and _is_set(ret[2][0])
         ctx.ob("GRID", "sorted set", f.loc(), ok_sorted,
@@ -530,13 +538,23 @@ def traj_reps(ctx) -> None:
         loops = [c for c in e.ctx if c[0] == "loop"]
         ok = len(loops) == 2
         iters = []
+        nodes = []
         for lp in loops:
             node = None
             for n in ast.walk(g.node):
                 if isinstance(n, ast.For) and n.lineno == lp[1][1]:
                     node = n
+            nodes.append(node)
             iters.append(util.text(node.iter) if node is not None else "?")
-        ok = ok and iters[0].endswith("noisy_samples") and iters[1].replace(" ", "") in ("range(samples.reps)",)
+        inner_ok = False
+        if ok and all(nodes):
+            outer, inner = nodes
+            it2 = inner.iter
+            inner_ok = isinstance(it2, ast.Call) and util.text(it2.func) == "range" and len(it2.args) == 1 and \
+                isinstance(it2.args[0], ast.Attribute) and it2.args[0].attr == "reps" and \
+                isinstance(it2.args[0].value, ast.Name) and isinstance(outer.target, ast.Name) and \
+                it2.args[0].value.id == outer.target.id
+        ok = ok and iters[0].endswith("noisy_samples") and inner_ok
         brk = any(isinstance(n, (ast.Break, ast.Continue, ast.Return)) for n in ast.walk(g.node))
         ctx.ob("TRAJ-reps", "yield nesting", e.loc(), ok and not brk,
                "one SequenceData is yielded per repetition of every noise trajectory (for samples in noisy_samples: "
@@ -739,10 +757,10 @@ def unique_observable_times(ctx) -> None:
             c0 = strip_typed(c)
             if c0[0] == "cmp" and c0[1] == "is" and "evaluation_times" in show(c0[2]) and c0[3] == ("const", None):
                 own_none = t
-        r = p.frames[0].env.get("observable_times") if p.frames else None
         if p.status == "raise":
             full += 1
             continue
+        r = p.retval
         s = show(r) if r is not None else ""
         if own_none is False:
             own += 1
